@@ -22,6 +22,8 @@ type Spec struct {
 	SkipCopy bool `json:"skip_copy,omitempty"`
 	// MatchIgnoreCase for field names
 	IgnoreCase bool `json:"ignore_case,omitempty"`
+	// ImplName: struct name set with goverter:name
+	ImplName string `json:"impl_name,omitempty"`
 	// WrapMode: "" (none), "wrap" (wrapErrors), "using" (wrapErrorsUsing corpus/perr)
 	WrapMode string `json:"wrap_mode,omitempty"`
 	// Update: update / default semantics of the method under test
